@@ -100,3 +100,17 @@ func SensitiveAvgs(lo, hi uint64) []uint64 {
 	}
 	return out
 }
+
+// NullBoundaryAvgs lists the average chunk sizes in [lo, hi] at which a window of 48 null bytes
+// satisfies the boundary condition: with such an average a run of zeros is cut right behind
+// the minimum size instead of running up to the maximum.
+func NullBoundaryAvgs(lo, hi uint64) []uint64 {
+	h := windowHash(make([]byte, Window))
+	var out []uint64
+	for a := lo; a <= hi; a++ {
+		if d := Discriminator(a); d > 0 && h%d == d-1 {
+			out = append(out, a)
+		}
+	}
+	return out
+}
